@@ -97,14 +97,14 @@ def scan_sources():
 def audit(prop_id: str):
     """
     Proof obligations of a property = the theorems registered for it in
-    lean/theorems.json.  Each must exist in the compiled library and depend on
+    lean/theorems/<id>.json.  Each must exist in the compiled library and depend on
     no axiom beyond propext / Classical.choice / Quot.sound.
     Returns (obligations, discharged, per-theorem axioms, failures).
     """
-    reg = json.load(open(os.path.join(LEAN, "theorems.json")))
-    entry = reg.get(prop_id)
-    if not entry:
+    rp = os.path.join(LEAN, "theorems", prop_id + ".json")
+    if not os.path.exists(rp):
         raise Infra(f"no theorems registered for {prop_id}")
+    entry = json.load(open(rp))
     mods, thms = entry["modules"], entry["theorems"]
     src = "".join(f"import {m}\n" for m in mods) + "".join(f"#print axioms {t}\n" for t in thms)
     path = os.path.join(LEAN, ".lake", f"audit_{prop_id}.lean")
